@@ -299,6 +299,35 @@ type c27kitPlan struct {
 	Chain   *localChain
 	Inputs  []*c27kitInput
 	Outputs []*TransactionOutput
+	shared  bool
+}
+
+// shareFunding makes the first two or three inputs of every third plan
+// outputs of ONE previous transaction (a user funding several deposits, or a
+// deposit and a change output, in one transaction): what the builder learns
+// about a previous transaction must stay tied to the output it was read for.
+func (p *c27kitPlan) shareFunding() {
+	if p.shared || len(p.Inputs) < 2 || (len(p.Inputs)*7+len(p.Outputs))%3 != 0 {
+		return
+	}
+	p.shared = true
+	m := len(p.Inputs)
+	if m > 3 {
+		m = 3
+	}
+	tx := &Transaction{Version: 2}
+	seed := p.Inputs[0].Utxo.Outpoint.TransactionHash
+	tx.Inputs = append(tx.Inputs, &TransactionInput{Outpoint: &TransactionOutpoint{TransactionHash: seed, OutputIndex: 7}, Sequence: 0xffffffff})
+	for i := 0; i < m; i++ {
+		tx.Outputs = append(tx.Outputs, &TransactionOutput{Value: p.Inputs[i].Value, PublicKeyScript: p.Inputs[i].PkScript})
+	}
+	if err := p.Chain.addTransaction(tx); err != nil {
+		return
+	}
+	h := tx.Hash()
+	for i := 0; i < m; i++ {
+		p.Inputs[i].Utxo = &UnspentTransactionOutput{Outpoint: &TransactionOutpoint{TransactionHash: h, OutputIndex: uint32(i)}, Value: p.Inputs[i].Value}
+	}
 }
 
 // c27kitAddInput funds an input of the given kind for the key on the plan's
@@ -341,6 +370,7 @@ func (p *c27kitPlan) Desc() string {
 
 // Builder pushes the plan through the production TransactionBuilder.
 func (p *c27kitPlan) Builder() (*TransactionBuilder, error) {
+	p.shareFunding()
 	b := NewTransactionBuilder(p.Chain)
 	for i, in := range p.Inputs {
 		var err error
